@@ -18,7 +18,9 @@ import (
 	"verifharness/hx"
 )
 
-// c05.select  kind  pool  robin  keyhex  rands  seed
+// c05.select  kind  pool  robin  keyhex  rands  seed  [layout]
+//   layout (optional 7th field, see c04_layout.go): the pool has one max_conns value, written as `max_conns` in the
+//          block (not poked into the hosts), backends on the directive line / on `upstream` lines, lines in the given order
 //   kind  random|least_conn|round_robin|first|ip_hash|uri_hash|header|header_empty
 //   pool  comma list of d/c/m : d 0 up, 1 unhealthy (health check), 2 failed (fails >= max_fails); conns; max_conns
 //   out   <index or -> TAB <round-robin counter after the call>
@@ -27,18 +29,30 @@ import (
 
 var c05mu sync.Mutex // math/rand global state and the global round robin are shared
 
-func c05NewUpstream(kind string, n int) (proxy.Upstream, proxy.HostPool, string) {
+// the upstream block: n backends, the policy and (maxConns >= 0) the connection cap of the block
+func c05Block(kind string, n int, maxConns int64) ([]string, []blkLine) {
 	policy := kind
 	if kind == "header" || kind == "header_empty" {
 		policy = "header X-Key X-Key2"
 	}
-	var cfg strings.Builder
-	cfg.WriteString("proxy /")
-	for i := 0; i < n; i++ {
-		fmt.Fprintf(&cfg, " h%d.test:80", i)
+	backends := make([]string, n)
+	for i := range backends {
+		backends[i] = fmt.Sprintf("h%d.test:80", i)
 	}
-	fmt.Fprintf(&cfg, " {\n policy %s\n}\n", policy)
-	ups, err := proxy.NewStaticUpstreams(casketfile.NewDispenser("Testfile", strings.NewReader(cfg.String())), "")
+	lines := []blkLine{{"", " policy " + policy + "\n"}}
+	if maxConns >= 0 {
+		lines = append(lines, blkLine{"", fmt.Sprintf(" max_conns %d\n", maxConns)})
+	}
+	return backends, lines
+}
+
+func c05NewUpstream(kind string, n int, lay string, maxConns int64) (proxy.Upstream, proxy.HostPool, string) {
+	backends, lines := c05Block(kind, n, maxConns)
+	cfg, ok := blkWrite("proxy /", backends, lines, lay)
+	if !ok {
+		return nil, nil, "bad-case:layout"
+	}
+	ups, err := proxy.NewStaticUpstreams(casketfile.NewDispenser("Testfile", strings.NewReader(cfg)), "")
 	if err != nil || len(ups) != 1 {
 		return nil, nil, fmt.Sprintf("setup-error:%v", err)
 	}
@@ -54,7 +68,8 @@ func c05NewUpstream(kind string, n int) (proxy.Upstream, proxy.HostPool, string)
 
 // c05Step sets the per-host state on the configured backends, performs one Select and
 // returns the index of the configured backend that was chosen.
-func c05Step(up proxy.Upstream, orig proxy.HostPool, kind, poolS, keyS, randsS, seedS string, robin *uint64, setRobin bool) (string, int) {
+// cfgCap >= 0: the connection cap comes from the block (`max_conns`) and every host of the case must name that value.
+func c05Step(up proxy.Upstream, orig proxy.HostPool, kind, poolS, keyS, randsS, seedS string, robin *uint64, setRobin bool, cfgCap int64) (string, int) {
 	hosts := strings.Split(poolS, ",")
 	if len(hosts) != len(orig) {
 		return "bad-case", 0
@@ -65,7 +80,11 @@ func c05Step(up proxy.Upstream, orig proxy.HostPool, kind, poolS, keyS, randsS, 
 		c, _ := strconv.ParseInt(p[1], 10, 64)
 		m, _ := strconv.ParseInt(p[2], 10, 64)
 		atomic.StoreInt64(&orig[i].Conns, c)
-		orig[i].MaxConns = m
+		if cfgCap < 0 {
+			orig[i].MaxConns = m
+		} else if m != cfgCap {
+			return "bad-case:max_conns differ within a written block", 0
+		}
 		atomic.StoreInt32(&orig[i].Unhealthy, 0)
 		atomic.StoreInt32(&orig[i].Fails, 0)
 		switch p[0] {
@@ -137,15 +156,29 @@ func c05Step(up proxy.Upstream, orig proxy.HostPool, kind, poolS, keyS, randsS, 
 }
 
 func c05Eval(f []string) (string, []string) {
-	if len(f) != 6 {
+	if len(f) != 6 && len(f) != 7 {
 		return "bad-case", nil
 	}
 	kind, poolS, robinS, keyS, randsS, seedS := f[0], f[1], f[2], f[3], f[4], f[5]
 	if poolS == "" {
 		return "bad-case", nil
 	}
-	n := len(strings.Split(poolS, ","))
-	up, orig, e := c05NewUpstream(kind, n)
+	hostsS := strings.Split(poolS, ",")
+	n := len(hostsS)
+	lay, cfgCap := "", int64(-1)
+	if len(f) == 7 {
+		lay = f[6]
+		p := strings.Split(hostsS[0], "/")
+		if len(p) != 3 {
+			return "bad-case", nil
+		}
+		m, err := strconv.ParseInt(p[2], 10, 64)
+		if err != nil || m < 0 {
+			return "bad-case", nil
+		}
+		cfgCap = m
+	}
+	up, orig, e := c05NewUpstream(kind, n, lay, cfgCap)
 	if e != "" {
 		return e, nil
 	}
@@ -153,8 +186,11 @@ func c05Eval(f []string) (string, []string) {
 	robin, _ := strconv.ParseUint(robinS, 10, 32)
 	c05mu.Lock()
 	defer c05mu.Unlock()
-	choice, nAvail := c05Step(up, orig, kind, poolS, keyS, randsS, seedS, &robin, true)
-	tags := []string{kind, fmt.Sprintf("n=%d", n)}
+	choice, nAvail := c05Step(up, orig, kind, poolS, keyS, randsS, seedS, &robin, true, cfgCap)
+	if strings.HasPrefix(choice, "bad-case") {
+		return choice, nil
+	}
+	tags := append([]string{kind, fmt.Sprintf("n=%d", n)}, blkLayoutTags(lay)...)
 	switch {
 	case nAvail == 0:
 		tags = append(tags, "trivial-none-available")
@@ -177,7 +213,7 @@ func c05SeqEval(f []string) (string, []string) {
 	kind := f[0]
 	steps := strings.Split(f[2], ";")
 	n := len(strings.Split(strings.Split(steps[0], "|")[0], ","))
-	up, orig, e := c05NewUpstream(kind, n)
+	up, orig, e := c05NewUpstream(kind, n, "", -1)
 	if e != "" {
 		return e, nil
 	}
@@ -193,7 +229,7 @@ func c05SeqEval(f []string) (string, []string) {
 		if len(p) != 4 {
 			return "bad-case", nil
 		}
-		ch, nAvail := c05Step(up, orig, kind, p[0], p[1], p[2], p[3], &robin, i == 0)
+		ch, nAvail := c05Step(up, orig, kind, p[0], p[1], p[2], p[3], &robin, i == 0, -1)
 		if prevAvail >= 0 && nAvail > prevAvail {
 			recovered = true
 		}
@@ -328,6 +364,51 @@ func c05Gen(g *hx.Gen) {
 						rands = c05Rands(seed, n)
 					}
 					g.Case(kind, strings.Join(hosts, ","), strconv.FormatUint(robin, 10), hx.HS(key), rands, strconv.FormatInt(seed, 10))
+				}
+			}
+		}
+	}
+	// the connection cap WRITTEN in the block (`max_conns M`, not poked into the hosts), the backends named on the directive
+	// line / on `upstream` lines / mixed, the lines of the block in every order (up to four lines; sampled beyond):
+	// every availability mask of pools of 1..4, every policy; unavailable = unhealthy / failed / at the cap
+	for n := 1; n <= 4; n++ {
+		for mask := 0; mask < 1<<n; mask++ {
+			for ki, kind := range c05Kinds {
+				for _, M := range []int{1, 2} {
+					if !g.Thorough() && n == 4 && (mask+ki+M)%2 == 0 {
+						continue
+					}
+					hosts := make([]string, n)
+					for i := range hosts {
+						switch {
+						case mask>>i&1 == 1:
+							hosts[i] = fmt.Sprintf("0/%d/%d", (i+ki)%M, M)
+						case (i+ki+mask)%3 == 0:
+							hosts[i] = fmt.Sprintf("0/%d/%d", M+(i+mask)%2, M)
+						case (i+ki+mask)%3 == 1:
+							hosts[i] = fmt.Sprintf("1/0/%d", M)
+						default:
+							hosts[i] = fmt.Sprintf("2/0/%d", M)
+						}
+					}
+					backends, lines := c05Block(kind, n, int64(M))
+					for li, lay := range append([]string{"d:0"}, blkLayouts(g.Rng, backends, lines, []string{"d", "u", "m1"}, 3)...) {
+						robin, key, seed, rands := uint64(0), "", int64(0), ""
+						switch kind {
+						case "ip_hash":
+							key = keys[(mask+li)%4]
+						case "uri_hash":
+							key = keys[4+(mask+li)%4]
+						case "header":
+							key = keys[(mask+li)%len(keys)]
+						case "round_robin", "header_empty":
+							robin = uint64((mask + li) % (n + 1))
+						case "random", "least_conn":
+							seed = int64(mask*31 + li + 1)
+							rands = c05Rands(seed, n)
+						}
+						g.Case(kind, strings.Join(hosts, ","), strconv.FormatUint(robin, 10), hx.HS(key), rands, strconv.FormatInt(seed, 10), lay)
+					}
 				}
 			}
 		}
